@@ -24,7 +24,10 @@ def eval_program(arg) -> dict:
     twins = stream % 6 == 2
     if twins and stream % 12 == 8:
         twins = 'same-names'     # ... and the two interfaces and their events share their names too
-    prog, case, _rng = progrun.make_program(PROP, seed, stream, scratch, want_mc,
+    def accept(info):
+        # the program of big size reroutes out-events with several parameters
+        return stream % 12 != 11 or any(info['ports'][p]['n_out'] for p in info['requires'])
+    prog, case, _rng = progrun.make_program(PROP, seed, stream, scratch, want_mc, accept=accept,
                                             mc_position=['first', 'middle', 'last'][(stream // 3) % 3],
                                             mc_shape=stream // 3, twins=twins,
                                             big=stream % 12 == 11)
